@@ -16,6 +16,7 @@ import (
 	"fmt"
 	"hash"
 	"math/big"
+	"strconv"
 	"strings"
 	"time"
 
@@ -374,7 +375,14 @@ func c51JWT(rt *rapid.T, rec *ev.Rec, w *c51World, keys *c51Keys) {
 			hdrJSON["kid"] = k.ID
 		}
 		hb, _ := json.Marshal(hdrJSON)
-		cb, _ := json.Marshal(claims)
+		// NumericDate may be any JSON number (RFC 7519 section 2): integer, fraction or exponent form
+		forms := map[string]string{}
+		for _, c := range []string{"exp", "nbf", "iat"} {
+			if _, ok := claims[c]; ok {
+				forms[c] = rapid.SampledFrom([]string{"int", "int", "fraction", "exponent"}).Draw(rt, c+"-form")
+			}
+		}
+		cb := c51ClaimsJSON(claims, forms)
 		si := b64u(hb) + "." + b64u(cb)
 		var sig []byte
 		if strings.EqualFold(headerAlg, "none") {
@@ -390,7 +398,7 @@ func c51JWT(rt *rapid.T, rec *ev.Rec, w *c51World, keys *c51Keys) {
 		switch tamper {
 		case "payload":
 			claims["sub"] = "admin"
-			cb2, _ := json.Marshal(claims)
+			cb2 := c51ClaimsJSON(claims, forms)
 			si = b64u(hb) + "." + b64u(cb2)
 		case "signature":
 			sig[len(sig)/2] ^= 0x01
@@ -433,6 +441,11 @@ func c51JWT(rt *rapid.T, rec *ev.Rec, w *c51World, keys *c51Keys) {
 		} else {
 			cls = append(cls, "jwt-invalid")
 		}
+		for _, c := range []string{"exp", "nbf", "iat"} {
+			if f, ok := forms[c]; ok && f != "int" {
+				cls = append(cls, "jwt-"+c+"-"+f)
+			}
+		}
 		var setDesc []string
 		for _, j := range set {
 			setDesc = append(setDesc, fmt.Sprintf("%s(alg=%q)", j.Key.ID, j.Alg))
@@ -443,8 +456,8 @@ func c51JWT(rt *rapid.T, rec *ev.Rec, w *c51World, keys *c51Keys) {
 				claimDesc[c] = v.(int64) - now
 			}
 		}
-		rec.Case(fmt.Sprintf("jwt|%v|%v|%s|%s|%s|%s|%s|%v|%s|%s|%v", setDesc, realms, path, k.ID, headerAlg, mut, shape, claimDesc, authPrefix, tamper, hdrJSON["kid"]), near && judge, cls...)
-		desc := map[string]any{"scheme": "jwt", "rule_index": ri, "key_set": setDesc, "signed_with": signKey.ID, "token_alg": headerAlg, "claims_relative_to_now_s": claimDesc, "mutation": mut, "authorization": authPrefix + clipStr(tok, 120), "model_valid": valid, "judged": judge}
+		rec.Case(fmt.Sprintf("jwt|%v|%v|%s|%s|%s|%s|%s|%v|%s|%s|%v", setDesc, realms, path, k.ID, headerAlg, mut, shape, claimDesc, authPrefix, tamper, hdrJSON["kid"])+fmt.Sprint(forms), near && judge, cls...)
+		desc := map[string]any{"scheme": "jwt", "rule_index": ri, "key_set": setDesc, "signed_with": signKey.ID, "token_alg": headerAlg, "claims_relative_to_now_s": claimDesc, "claims_json": string(cb), "mutation": mut, "authorization": authPrefix + clipStr(tok, 120), "model_valid": valid, "judged": judge}
 		rec.Sample(desc)
 		o := w.c51Send(w.rig.HTTPAddr, target, func(string) []byte { return c51Req("GET", target, "jwt.example.org", hdrs) })
 		wit := map[string]any{"case": desc, "rules_file": ruleJSON, "key_files": keyTxt, "token": tok, "observed": o.String(), "response_head": clip(o.Raw, 300)}
@@ -466,6 +479,10 @@ func c51JWT(rt *rapid.T, rec *ev.Rec, w *c51World, keys *c51Keys) {
 		}
 		if o.Kind == "forwarded" {
 			key := "jwt-invalid-forwarded/" + mut
+			if c := map[string]string{"expired": "exp", "not-yet-valid": "nbf", "issued-in-future": "iat"}[mut]; c != "" && forms[c] != "int" {
+				// discriminating feature: the violated time claim is a fractional / exponent-form JSON number
+				key += "/" + forms[c] + "-numericdate"
+			}
 			if mut == "alg-of-same-family" {
 				key = "jwt-alg-substitution"
 			}
@@ -485,6 +502,29 @@ func c51JWT(rt *rapid.T, rec *ev.Rec, w *c51World, keys *c51Keys) {
 			rec.Fail(rt, "jwt-401-challenge", wit, "401 carries WWW-Authenticate %q, want %q", got, want)
 		}
 	}
+}
+
+// c51ClaimsJSON writes the claim set by hand so that the spelling of the numbers is under control.
+func c51ClaimsJSON(claims map[string]any, forms map[string]string) []byte {
+	var b strings.Builder
+	fmt.Fprintf(&b, `{"sub":%q`, claims["sub"])
+	for _, c := range []string{"exp", "nbf", "iat"} {
+		v, ok := claims[c]
+		if !ok {
+			continue
+		}
+		t := v.(int64)
+		switch forms[c] {
+		case "fraction":
+			fmt.Fprintf(&b, `,%q:%d.5`, c, t)
+		case "exponent":
+			fmt.Fprintf(&b, `,%q:%s`, c, strconv.FormatFloat(float64(t), 'e', -1, 64))
+		default:
+			fmt.Fprintf(&b, `,%q:%d`, c, t)
+		}
+	}
+	b.WriteString("}")
+	return []byte(b.String())
 }
 
 func clipStr(s string, n int) string {
